@@ -51,4 +51,41 @@ def kGetmass (x slope xmin xmax : α) : α :=
     let A := (1 / (1 - slope)) * (rpow xmax (1 - slope) - rpow xmin (1 - slope))
     rpow ((1 - slope) * x * A + rpow xmin (1 - slope)) (1 / (1 - slope))
 
+/-- index of the last element satisfying `p` (`np.where(cond)[0][-1]`) -/
+def lastIdxAux (p : α → Bool) : List α → Nat → Option Nat → Option Nat
+  | [], _, acc => acc
+  | x :: t, i, acc => lastIdxAux p t (i + 1) (if p x then some i else acc)
+
+/-- index of the first element satisfying `p` (`np.where(cond)[0][0]`) -/
+def firstIdxAux (p : α → Bool) : List α → Nat → Option Nat
+  | [], _ => none
+  | x :: t, i => if p x then some i else firstIdxAux p t (i + 1)
+
+inductive KErr | below | above | index deriving Repr, DecidableEq
+
+def maxS' (x y : α) : α := if lt x y then y else x     -- np.max((x, y))
+def minS' (x y : α) : α := if lt y x then y else x     -- np.min((x, y))
+
+/-- one pass of the loop body of `integral()` for piece `i` -/
+def kIntStep (a mlim : List α) (xmin xmax : α) (acc : α × α) (i : Nat) : α × α :=
+  let lo := maxS' (mlim.getD i 0) xmin
+  let hi := minS' (mlim.getD (i + 1) 0) xmax
+  let ai := a.getD i 0
+  (acc.1 + kNorm a mlim * kC a mlim i * kMom0 lo hi ai, acc.2 + kNorm a mlim * kC a mlim i * kMom1 lo hi ai)
+
+/-- `Kroupa.integral(xmin, xmax)` (Kroupa.py:79-131): piece selection and accumulation -/
+def kIntegral (a mlim : List α) (xmin xmax : α) : Except KErr (α × α) :=
+  if lt xmin (mlim.getD 0 0) then .error .below
+  else if lt (mlim.getD (mlim.length - 1) 0) xmax then .error .above
+  else
+    let imin := lastIdxAux (fun m => le 1 (xmin / m)) mlim 0 none
+    let imax := if beq xmax (mlim.getD (mlim.length - 1) 0) then some (mlim.length - 1)
+                else firstIdxAux (fun m => lt (xmax / m) 1) mlim 0
+    match imin, imax with
+    | some i0, some i1 =>
+      if i0 == i1 then
+        .ok (kNorm a mlim * kC a mlim i0 * kMom0 xmin xmax (a.getD i0 0), kNorm a mlim * kC a mlim i0 * kMom1 xmin xmax (a.getD i0 0))
+      else .ok ((List.range' i0 (i1 - i0)).foldl (kIntStep a mlim xmin xmax) (0, 0))
+    | _, _ => .error .index
+
 end Model
